@@ -79,12 +79,14 @@ package text
 //@   assigns nothing
 
 //@ func (r *Reader) Remaining(pos parsley.Pos) (n int)
+//@   props C09,C12,C08,C02,C03
 //@   refines parsley.Reader.Remaining
 //@   requires wfReader(r) && inFile(r.file, pos)
 //@   ensures  n == r.file.len - (int(pos) - r.file.offset) && 0 <= n
 //@   assigns  nothing
 
 //@ func (r *Reader) IsEOF(pos parsley.Pos) (b bool)
+//@   props C09,C12,C08,C04
 //@   refines parsley.Reader.IsEOF
 //@   requires wfReader(r) && inFile(r.file, pos)
 //@   ensures  b == (int(pos) - r.file.offset >= r.file.len)
